@@ -325,6 +325,19 @@ pub mod unit {
         stack_sat(env, z, Query::Rule(r))
     }
 
+    /// sanity of the oracle (the reviewer's scenario): two proofs in one frame satisfy an amount query only
+    /// if one of them does on its own -- e.g. two proofs of 5 created against the same 5 tokens do not show 10
+    pub proof fn lemma_amounts_are_never_added_up(env: AuthEnv, p1: Proof, p2: Proof, res: ResourceAddress, amount: Decimal,
+        simulated: Set<ResourceAddress>, implicit: Set<NonFungibleGlobalId>)
+        ensures frame_sat(env, Query::Amount(res, amount), seq![p1, p2], simulated, implicit)
+            == (proof_has_amount(env, p1, res, amount) || proof_has_amount(env, p2, res, amount))
+    {
+        let ps = seq![p1, p2];
+        assert(ps[0] == p1 && ps[1] == p2);
+        if proof_has_amount(env, p1, res, amount) { assert(proof_has_amount(env, ps[0], res, amount)); }
+        if proof_has_amount(env, p2, res, amount) { assert(proof_has_amount(env, ps[1], res, amount)); }
+    }
+
     // ---- contracts of the `check` callbacks ----------------------------------------------------------
     /// the callback may be called on anything and behaves like a system call: Ok leaves the ghost state
     /// as it was, Err records the error
